@@ -163,7 +163,7 @@ class Sim:
                 self.fire('clock-back')
             else:
                 self.now += self.rng_clock.choice((1e-6, 1e-4, 1e-3))
-        value = self.now + (t.proc.skew if t is not None else 0.0)
+        value = self.now + (t.proc.skew if t is not None else self.harness_proc.skew)
         if t is not None:
             t.clock_reads.append(value)
             if self.yield_clock:
